@@ -446,6 +446,16 @@ func (sc *Scope) trRef(e Expr) (Term, types.Type, bool) {
 			break
 		}
 	}
+	if id, isId := e.(EIdent); isId && !sc.qvars[id.Name] && sc.pkg != nil {
+		// a struct-typed package-level variable: the object itself
+		if _, isVar := sc.vars[id.Name]; !isVar && (sc.frame == nil || !sc.frame.hasLocal(id.Name)) {
+			if o, isV := sc.pkg.Scope().Lookup(id.Name).(*types.Var); isV && isStruct(o.Type()) {
+				if g := sc.vc.p.globalFor(o); g != nil {
+					return sc.vc.globalRef(g), o.Type(), true
+				}
+			}
+		}
+	}
 	f, ok := e.(EField)
 	if !ok {
 		return Term{}, nil, false
